@@ -334,6 +334,16 @@ func TestC17_Random(t *testing.T) {
 			Subject: subj.Draw(rt, "subject"),
 			Op:      rapid.SampledFrom([]string{"match", "match", "contains", "split", "split", "replace", "replace", "replace", "replacefn", "apply", "ctx"}).Draw(rt, "op"),
 		}
+		if rapid.IntRange(0, 5).Draw(rt, "anchoredLiteral") == 0 {
+			// a pure literal between anchors, and a subject that contains the literal
+			// (with or without something around it): the engine decides, not a
+			// substring search
+			lit := strings.Join(rapid.SliceOfN(rapid.SampledFrom([]string{"a", "b", "c", "é", "ab"}), 1, 3).Draw(rt, "literal"), "")
+			c.Pattern = rapid.SampledFrom([]string{"^" + lit + "$", "^" + lit, lit + "$", "^(" + lit + ")$", lit}).Draw(rt, "anchoring")
+			pre := rapid.SampledFrom([]string{"", "", "a", "b", "x\n", "\n", lit}).Draw(rt, "before")
+			post := rapid.SampledFrom([]string{"", "", "a", "c", "\nx", "\n", lit}).Draw(rt, "after")
+			c.Subject = pre + lit + post
+		}
 		if c.Op == "replace" {
 			c.Templ = templ.Draw(rt, "template")
 		}
